@@ -42,11 +42,19 @@ func init() {
 
 func (w c28) ID() string { return w.id }
 
-var c28Types = []string{gen.TOpen2, gen.TOpen3, gen.TEditions, gen.THybrid, gen.TOpaque, gen.TOpaque, gen.TExt2, "goproto.proto.test.TestAllTypes.NestedMessage", "opaque.goproto.proto.testeditions.TestAllExtensions", gen.TManyOpaque}
+var c28Types = []string{gen.TOpen2, gen.TOpen3, gen.TEditions, gen.THybrid, gen.TOpaque, gen.TOpaque, gen.TExt2, "goproto.proto.test.TestAllTypes.NestedMessage", "opaque.goproto.proto.testeditions.TestAllExtensions", gen.TManyOpaque,
+	// editions files with file-level and field-level field_presence settings (IMPLICIT file default with EXPLICIT
+	// overrides; LEGACY_REQUIRED scalars of every kind)
+	"goproto.proto.test.TestAllTypesProto3Editions", "goproto.proto.test.TestAllTypesProto2Editions", c28Required}
+
+// c28Required stands for one of the single-field messages of internal/testprotos/required (all flavors), chosen by the scenario.
+const c28Required = "required/*"
+
+var c28RequiredKinds = []string{"Int32", "Int64", "Uint32", "Uint64", "Sint32", "Sint64", "Fixed32", "Fixed64", "Float", "Double", "Bool", "String", "Bytes", "Message", "Group"}
 
 var c28MutAll = []string{"set", "set", "set", "set-zero", "clear", "clear", "set-msg-empty", "mutable-msg", "list-append", "list-append", "list-set", "list-truncate", "map-set", "map-set", "map-clear",
 	"oneof-set", "oneof-set", "oneof-msg-mutable", "set-unknown", "ext-set", "ext-clear", "merge", "decode-oneof-multi", "roundtrip-bin", "roundtrip-json", "roundtrip-text", "readonly-write", "check-encoded", "json-two-members", "text-two-members", "presence-sweep"}
-var c28MutC11 = []string{"set", "set", "set-zero", "set-zero", "set-zero", "clear", "clear", "set-msg-empty", "mutable-msg", "list-append", "list-truncate", "map-set", "map-clear", "oneof-set", "ext-set", "ext-clear",
+var c28MutC11 = []string{"set", "set", "set-zero", "set-zero", "set-zero", "clear", "clear", "presence-sweep", "set-msg-empty", "mutable-msg", "list-append", "list-truncate", "map-set", "map-clear", "oneof-set", "ext-set", "ext-clear",
 	"roundtrip-bin", "roundtrip-bin", "roundtrip-json", "roundtrip-text", "check-encoded", "check-encoded", "merge"}
 var c28MutC12 = []string{"oneof-set", "oneof-set", "oneof-set", "oneof-set", "oneof-msg-mutable", "oneof-msg-mutable", "clear", "set", "merge", "merge", "decode-oneof-multi", "decode-oneof-multi", "decode-oneof-multi",
 	"roundtrip-bin", "roundtrip-json", "roundtrip-text", "json-two-members", "json-two-members", "text-two-members", "text-two-members", "set-msg-empty"}
@@ -55,12 +63,15 @@ var c28Reads = []string{"render", "render", "range", "has", "get", "which", "unk
 func (w c28) Gen(r *sim.Rng, tier string) *scn.Scn {
 	s := &scn.Scn{P: map[string]int64{}}
 	typ := c28Types[r.Intn(len(c28Types))]
+	if typ == c28Required {
+		typ = []string{"", "hybrid.", "opaque."}[r.Intn(3)] + "goproto.proto.testrequired." + c28RequiredKinds[r.Intn(len(c28RequiredKinds))]
+	}
 	if _, err := protoregistry.GlobalTypes.FindMessageByName(protoreflect.FullName(typ)); err != nil {
 		typ = gen.TOpen2
 	}
 	s.Objects = []scn.Object{{Type: typ}}
-	if r.Chance(1, 4) {
-		s.P["dynamic"] = 1
+	if r.Chance(1, 3) {
+		s.P["dynamic"] = int64(r.Range(1, 2)) // 1: dynamicpb over the linked descriptor, 2: over a protodesc-rebuilt one
 	}
 	if r.Chance(4, 5) {
 		s.P["focus"] = int64(r.U64()>>2) | 1
@@ -474,13 +485,7 @@ func stripUnknown(am *model.AMsg) {
 }
 
 func extsOf(md protoreflect.MessageDescriptor) []protoreflect.ExtensionType {
-	var xts []protoreflect.ExtensionType
-	protoregistry.GlobalTypes.RangeExtensionsByMessage(md.FullName(), func(xt protoreflect.ExtensionType) bool {
-		xts = append(xts, xt)
-		return true
-	})
-	sort.Slice(xts, func(i, j int) bool { return xts[i].TypeDescriptor().Number() < xts[j].TypeDescriptor().Number() })
-	return xts
+	return gen.ExtensionsOf(md)
 }
 
 // mutate applies op to both sides. It returns "aspect: detail" for inline
@@ -1016,15 +1021,23 @@ func (w c28) Run(s *scn.Scn, x *sim.Exec) {
 		return
 	}
 	typ := s.Objects[0].Type
-	dyn := s.P["dynamic"] == 1
+	dyn := s.P["dynamic"] >= 1
+	rootMD := gen.Type(typ).Descriptor()
+	if s.P["dynamic"] == 2 {
+		// dynamicpb over the descriptor as reflect/protodesc rebuilds it from the FileDescriptorProto
+		if md := gen.Rebuilt(typ); md != nil {
+			rootMD = md
+			x.Probe("protodesc-rebuilt-descriptor-scenarios", 1)
+		}
+	}
 	newMsg := func() proto.Message {
 		if dyn {
-			return dynamicpb.NewMessage(gen.Type(typ).Descriptor())
+			return dynamicpb.NewMessage(rootMD)
 		}
 		return gen.NewMsg(typ)
 	}
-	p := &c28Pair{am: model.NewMsg(gen.Type(typ).Descriptor()), m: newMsg()}
-	c28Focus = c28MakeFocus(gen.Type(typ).Descriptor(), uint64(s.P["focus"]))
+	p := &c28Pair{am: model.NewMsg(rootMD), m: newMsg()}
+	c28Focus = c28MakeFocus(rootMD, uint64(s.P["focus"]))
 	defer func() { c28Focus = nil }()
 	muts, oneofOps, zeroSets := 0, 0, 0
 	otherAspects := 0
@@ -1160,6 +1173,12 @@ func (w c28) Run(s *scn.Scn, x *sim.Exec) {
 			case "descriptor":
 				if root.Descriptor().FullName() != md.FullName() || !root.IsValid() {
 					return bad("value", "Descriptor/IsValid")
+				}
+				// the declared presence discipline, as the descriptor reports it vs the model's own reading
+				if fd := pickFD(md, op.N, func(protoreflect.FieldDescriptor) bool { return true }); fd != nil {
+					if fd.HasPresence() != model.ExplicitPresence(fd) {
+						return bad("has", fmt.Sprintf("descriptor of field %s reports HasPresence=%v, its declaration says %v", fd.FullName(), fd.HasPresence(), model.ExplicitPresence(fd)))
+					}
 				}
 			}
 			return sim.OpResult{}
